@@ -120,8 +120,8 @@ def lookup(ir_set, on, mode, target, fan, swing, prev):
     cap = capabilities(ir_set)
     toggle = cap["toggle"]
     if mode not in cap["supported"]:
-        if not toggle and not on:
-            return ("unspecified", "off requested together with an unsupported mode")
+        # "an unsupported mode is refused" is unconditional in the statement, also when a non-toggle remote is
+        # asked to turn off (the 'plain off' clause only says which code a *valid* request uses)
         return ("error", cap["supported"])
     clamped = target
     if mode in ("cool", "heat"):
